@@ -27,6 +27,22 @@ nullable!(N4, u32, 0u32);
 nullable!(N8, u64, u64::MAX);
 nullable!(N32, [u8; 32], [0u8; 32]);
 
+/// A nullable whose `is_none` is NOT the negation of `is_some`: 0 is none, u16::MAX is a
+/// tombstone (neither some nor none), everything else is some.
+#[repr(transparent)]
+#[derive(Clone, Copy, PartialEq, Debug)]
+pub struct N2(pub u16);
+unsafe impl Zeroable for N2 {}
+unsafe impl Pod for N2 {}
+impl Nullable for N2 {
+    fn is_some(&self) -> bool {
+        self.0 != 0 && self.0 != u16::MAX
+    }
+    fn is_none(&self) -> bool {
+        self.0 == 0
+    }
+}
+
 fn tf(b: bool) -> String {
     (if b { "T" } else { "F" }).to_string()
 }
@@ -110,6 +126,24 @@ pub fn run(case: &Case, _full: bool, _fill: u8, out: &mut String) {
                     _ => panic!("bad size"),
                 }
             }
+            "loadoff" => {
+                // load from a slice that starts `off` bytes into an 8-aligned buffer
+                let sz = int(&op[1]);
+                let off = int(&op[2]) as usize;
+                let bytes = unhex(&op[3]);
+                let mut backing = vec![0u64; (off + bytes.len()) / 8 + 2];
+                let all: &mut [u8] = bytemuck::cast_slice_mut(&mut backing);
+                all[off..off + bytes.len()].copy_from_slice(&bytes);
+                let view = &all[off..off + bytes.len()];
+                match sz {
+                    1 => load_case::<PodBool>(view),
+                    4 => load_case::<PodOption<N4>>(view),
+                    8 => load_case::<PodOption<N8>>(view),
+                    10 => load_case::<PodStr<10>>(view),
+                    32 => load_case::<PodOption<N32>>(view),
+                    _ => panic!("bad size"),
+                }
+            }
             "loadmut" => {
                 let sz = int(&op[1]);
                 let bytes = unhex(&op[2]);
@@ -128,6 +162,7 @@ pub fn run(case: &Case, _full: bool, _fill: u8, out: &mut String) {
                 let bytes = unhex(&op[2]);
                 match sz {
                     1 => opt_case::<N1>(&bytes),
+                    2 => opt_case::<N2>(&bytes),
                     4 => opt_case::<N4>(&bytes),
                     8 => opt_case::<N8>(&bytes),
                     32 => opt_case::<N32>(&bytes),
